@@ -9,6 +9,20 @@ def run(ctx):
     findings = load_findings('C01')
     translate(ctx, ['args', 'key'])
     lean_props(ctx)
+    if cargo_harness(ctx, ['h_atfile']):
+        w = ctx.work; e = env_offline(); e['VERIF_SEED'] = str(ctx.seed)
+        n = 1500 if ctx.quick() else 60000
+        rc, out, dt = sh([harness_bin('h_atfile'), 'gen', str(n), f'{w}/atfile.trace', f'{w}/atfile.json'], env=e, timeout=7200)
+        if rc != 0 or not os.path.exists(f'{w}/atfile.json'): ctx.broken.append('h_atfile crashed: ' + out[-300:])
+        else:
+            s = json.load(open(f'{w}/atfile.json'))
+            if 'aborted_in_case' not in s: run_modeld(ctx, 'atfile', f'{w}/atfile.trace', 'atfile')
+            else: ctx.broken.append('correspondence atfile: the real ExpandIncludeFile did not return (see the monitor failure)')
+            if not s['oracle_available']: ctx.notes.append('c++filt not found: the reference side (libiberty expandargv) of the response-file tie was not exercised in this run')
+            ctx.evaluations += s['cases']; ctx.distinct_nontrivial += s['fully_expanded'] + s['deep_expansions']; ctx.samples += s['samples'][:1]
+            ctx.cov['atfile'] = {k: v for k, v in s.items() if k not in ('monitor_failures', 'samples')}
+            def rpa(fl): return ('monitor-' + fl['kind'], ['h_atfile: files of one generated directory (new / D <dir> / F <name> <content>, hex) and the command line; the real gcc::ExpandIncludeFile next to c++filt (libiberty expandargv)', 'observed: ' + fl['detail']], '\n'.join(fl['ops']))
+            monitor_failures(ctx, s['monitor_failures'], findings, 'h_atfile monitor', rpa)
     if cargo_harness(ctx, ['h_args', 'h_l1']):
         w = ctx.work; e = env_offline(); e['VERIF_SEED'] = str(ctx.seed)
         n = 20000 if ctx.quick() else 400000
@@ -30,6 +44,8 @@ def run(ctx):
             ctx.evaluations += s['l1_cases'] + s['pp_fault_cases']; ctx.cov['l1'] = {k: v for k, v in s.items() if k not in ('monitor_failures', 'samples')}
     from checks import C02 as c02mod
     c02mod.key_tie(ctx, findings, 1500, 1500, own_property=False)
+    ctx.rules.append('h_atfile: generated directories of response files (plain, quotes / backslashes, non-ASCII white space, NUL / invalid UTF-8, blank, nested, self- and mutually including, missing, directories) '
+                     'and command lines of 1-4 arguments; the real gcc::ExpandIncludeFile against AtFileM.sccExpand, c++filt (libiberty expandargv) against AtFileM.gccExpand; non-trivial = command lines expanded completely or deeper than one level')
     ctx.rules.append('h_args: command lines built from every entry of the real gcc/clang tables in every disposition (separated, concatenated, delimited, missing value), unknown flags, --, @file, '
                      '-arch repeats, 0-2 inputs, shuffled; 1 in 20 with non-UTF-8 bytes (part of the correspondence: the model carries to_string_lossy), one clang piece in ten is a -Xclang group (second pass of parse_arguments); h_l1: exhaustive decision alphabet; system: edit/flag/language/output/env/restart histories')
     if cargo_repo_bins(ctx, ('sccache', 'sccache-dist')):
@@ -38,12 +54,14 @@ def run(ctx):
         for cc in ('/usr/bin/gcc', '/usr/bin/clang'):
             res = sysmon.st.run_corpus(sysmon.sysroot(ctx, 'c01'), 'c01c' + os.path.basename(cc), cc)
             sysmon.feed(ctx, res, findings, f'system corpus histories {os.path.basename(cc)}')
+            res = sysmon.st.run_rsp(sysmon.sysroot(ctx, 'c01'), 'c01r' + os.path.basename(cc), cc)
+            sysmon.feed(ctx, res, findings, f'system response-file scenarios {os.path.basename(cc)}')
             for dm in (True, False):
                 res = sysmon.st.run_histories(sysmon.sysroot(ctx, 'c01'), f'c01{os.path.basename(cc)}{dm}', cc, ctx.seed * 7 + dm, nh, nr, direct_mode=dm)
                 sysmon.feed(ctx, res, findings, f'system {os.path.basename(cc)} preprocessor_cache_mode={dm}')
     ctx.assumptions += ['A1: the result of gcc/clang is a function of the hashed components (digest, driver mode, language, common+arch arguments, allow-listed env, extra files, preprocessed text) — tested by the system monitor, not proved',
                         'A2: no BLAKE3 collision among the keys of a history (explicit disjunct in never_replayed_for_different_request)', 'A3: storage returns what was stored or fails (C06, C08)']
-    ctx.notes.append('not modelled: @file expansion (ExpandIncludeFile) beyond the refusal of @ values, edits during a request; the regen theorems cover command lines without -Xclang values (the second pass is modelled and tied, not yet under the partition theorems)')
+    ctx.notes.append('not modelled: edits during a request; the regen theorems cover command lines without -Xclang values (the second pass is modelled and tied, not yet under the partition theorems)')
 
 def replay(ctx, path):
     if not cargo_harness(ctx, ['h_args']): return 2
